@@ -744,6 +744,53 @@ def instantiate_fn(fs, item, em):
                     k += 1
                 if not found:
                     degraded.append("%s rule: occurrence %d not found" % (rule, n))
+            elif rule == "fold":
+                # RECV.into_iter().fold(INIT, CL)   (R-fold: definition of Iterator::fold)
+                cnt = 0
+                found = False
+                k = lo
+                while k + 7 < hi:
+                    tt = [toks[k + j].text for j in range(0, 7)]
+                    if tt == [".", "into_iter", "(", ")", ".", "fold", "("]:
+                        cnt += 1
+                        if cnt == max(n, 1):
+                            r = recv_start(toks, k)
+                            recv = text[toks[r].start:toks[k - 1].end]
+                            fclose = match_close(toks, k + 6)
+                            # first top-level comma inside fold(...)
+                            j = k + 7
+                            comma = None
+                            while j < fclose:
+                                if toks[j].kind == "punct" and toks[j].text in OPEN:
+                                    j = match_close(toks, j) + 1
+                                    continue
+                                if toks[j].text == ",":
+                                    comma = j
+                                    break
+                                j += 1
+                            if comma is None:
+                                raise GenError("%s: fold rule: expected two arguments" % fnkey)
+                            it = kws.get("iter", "__it")
+                            inv = []
+                            if kws.get("invariant"):
+                                inv.append("invariant")
+                                for ci, cexpr in enumerate(split_top(kws["invariant"]), 1):
+                                    obid = "%s#fold%dinv%d" % (fnkey, cnt, ci)
+                                    inv.append("    %s,  /*@ob %s*/" % (cexpr, obid))
+                                    em._pending.append({"id": obid, "kind": "loop-invariant", "fn": fnkey,
+                                                        "tags": list(fs.tags), "text": cexpr, "marker": obid})
+                            edits.append((toks[r].start, toks[k + 6].end, "{ let __src = %s.into_iter(); let mut __acc = " % recv))
+                            edits.append((toks[comma].start, toks[comma].end, "; let __f = "))
+                            edits.append((toks[fclose].start, toks[fclose].end,
+                                          "; for __x in %s: __src\n" % it + "\n".join("                " + x for x in inv) +
+                                          "\n            { %s __acc = __f(__acc, __x); } __acc }" % kws.get("body", "")))
+                            log.append("R-fold: `%s.into_iter().fold(INIT, CL)` rewritten to `let mut acc = INIT; for x in %s { acc = CL(acc, x); } acc` (line %d)" % (
+                                recv, recv, item.line0 + text.count("\n", 0, toks[k].start)))
+                            found = True
+                            break
+                    k += 1
+                if not found:
+                    degraded.append("fold rule: occurrence %d not found" % n)
             elif rule == "collect_result":
                 # X.iter().cloned().map(F).collect::<Result<Vec<T>, E>>()?   (R-collect-result)
                 cnt = 0
